@@ -507,6 +507,40 @@ func (w *world) opHTTPUpload(b *blob) {
 		}
 		simrt.Yield()
 	}
+	// A chunk may be sent again — a retransmission, or a client rewriting part
+	// of what it sent — with the same or with other bytes. What counts is what
+	// the upload file holds at commit: the stream is valid iff THAT hashes to the
+	// digest.
+	if len(data) > 0 && w.tp.Chance(250) {
+		off := w.tp.Draw(len(data))
+		end := off + 1 + w.tp.Draw(len(data)-off)
+		again := append([]byte(nil), data[off:end]...)
+		switch w.tp.Draw(3) {
+		case 0: // identical retransmission
+		case 1: // other bytes
+			again[w.tp.Draw(len(again))] ^= byte(1 + w.tp.Draw(255))
+		case 2: // the true bytes of that range, where the blob has them
+			if !b.phantom && end <= len(b.data) {
+				copy(again, b.data[off:end])
+			}
+		}
+		rec = w.rig.do("PATCH", base+"/"+uid, again, map[string]string{"Content-Range": fmt.Sprintf("%d-%d", off, end)})
+		if rec.Code != http.StatusOK {
+			w.s.Logf("%s re-patch %s -> %d", path, short(b.hex), rec.Code)
+			return
+		}
+		copy(data[off:end], again)
+		nowValid := !b.phantom && kit.SHA(data) == b.hex
+		if nowValid != valid {
+			w.s.Probe("http_upload_validity_changed_by_resent_chunk")
+			kind = vOther
+		}
+		valid = nowValid
+		if valid {
+			b.validStarted = true
+		}
+		w.s.Probe("http_upload_chunk_resent")
+	}
 	rec = w.rig.do("PUT", base+"/"+uid, nil, nil)
 	var err error
 	switch {
